@@ -14,6 +14,11 @@
 //                 through shared memory, exit status read by the parent
 // (a) and (b) are also run *nested* inside an outer test, so that the values to restore are not the defaults.
 //
+// Terminator configurations: every run mode is also driven in the crash-on-fail configuration (UtestShell::setCrashOnFail()
+// before the run, or -f on the command line of the runner / the forked process) with a crash method that RETURNS
+// (UtestShell::setCrashMethod(): debugger trap / stack-trace logger that continues). A failing check still has to leave its
+// phase after the hook returned, so the model is the same as in the default configuration; the hook only counts its calls.
+//
 // Build variants: asan (exceptions) and asan-noexc (-fno-exceptions -DVF_NOEXC: no throw statements).
 #include "verif.h"
 #include <stdexcept>
@@ -81,6 +86,7 @@ struct Program {
     bool flag_e = false; bool string_buffer_output = false;
     std::vector<std::string> argv;  // modes 1,2
     int bystander = 0;              // extra no-op plugin: see run_inner
+    int crash = 0;                  // crash-on-fail with a crash method that returns: 0 off, 1 UtestShell::setCrashOnFail() before the run, 2 "-f" (modes 1,2)
     int nstmts = 0;
     std::string shape;
 };
@@ -121,6 +127,7 @@ struct Model {
     long stmt_exec[K_N + 1] = { 0 };
     long phase_outcomes[8] = { 0 };
     long test_exec = 0;
+    long terminator_uses[3] = { 0, 0, 0 };   // per phase: failing C++-style / C-style checks and TEST_EXITs executed (each one goes through the configured terminator)
 };
 
 static std::vector<int> run_order(const Program& p) {
@@ -165,6 +172,7 @@ static Model interpret(const Program& p) {
                     } else if (s.kind == K_EXIT) {
                         if (act) oc = O_EXIT;
                     }
+                    if (oc == O_CPP || oc == O_C || oc == O_EXIT) m.terminator_uses[ph]++;
                     if (oc != O_OK) break;
                 }
                 R.outcome[ti][ph] = oc;
@@ -206,6 +214,7 @@ struct Obs {
     RepCounters rc_[MAXREP];
     int rc; int have_rc; int finished;
     int outer_failures, outer_runs, outer_after, outer_used;
+    uint32_t crash_calls, crash_calls_outside_phase, crash_calls_in_phase[3];
     uint32_t outlen; int out_overflow;
     Ev ev[MAXEV];
     char out[MAXOUT];
@@ -234,6 +243,7 @@ struct RunCtx {
     UtestShell* shells[MAXT];
     int pre_count[MAXT], create_count[MAXT], post_count[MAXT], depth_pre[MAXT];
     int entry_depth[3];                     // of the test that is running: depth at the entry of each phase (-1: not entered)
+    int cur_phase = -1;                     // phase entered last (crash hook attribution); -1 between tests
     UtestShell* base_cur = nullptr; TestResult* base_res = nullptr;
     size_t ntests = 0;
 };
@@ -350,8 +360,15 @@ static void __attribute__((noinline)) exec_deep(const Stmt& s, int rep, int leve
     pad[1] = pad[0];
 }
 
+static void crash_hook_that_returns() {     // a debugger trap / stack-trace logger that continues
+    Obs* o = g_obs;
+    o->crash_calls++;
+    if (G.cur_phase >= 0 && G.cur_phase < 3) o->crash_calls_in_phase[G.cur_phase]++; else o->crash_calls_outside_phase++;
+}
+
 static void run_phase(int idx, int ph) {
     rec(EV_ENTER, (uint8_t) ph, idx);
+    G.cur_phase = ph;
     Obs* o = g_obs;
     int d = CppUTestVerif_JumpBufferDepth();
     if (d >= 0 && d < 16) o->depth_hist[d]++;
@@ -409,6 +426,7 @@ public:
         rec(EV_PRE, 0, idx);
         G.depth_pre[idx] = CppUTestVerif_JumpBufferDepth();
         G.entry_depth[0] = G.entry_depth[1] = G.entry_depth[2] = -1;
+        G.cur_phase = -1;
         if (UtestShell::getCurrent() != G.base_cur) o->cur_bad_pre++;
         if (g_peek->peekResult() != G.base_res) o->res_bad_pre++;
         const TestSpec& ts = G.p->tests[(size_t) idx];
@@ -420,6 +438,7 @@ public:
         if (idx < 0) { o->unknown_shell++; return; }
         int rep = G.post_count[idx]++;
         rec(EV_POST, 0, idx);
+        G.cur_phase = -1;
         int d = CppUTestVerif_JumpBufferDepth();
         o->depth_checks++;
         if (d != G.depth_pre[idx]) { if (!o->depth_drifts++) { o->drift_test = idx; o->drift_rep = rep; o->drift_pre = G.depth_pre[idx]; o->drift_post = d; for (int k = 0; k < 3; k++) o->drift_entry[k] = G.entry_depth[k]; } }
@@ -469,6 +488,8 @@ static void run_inner() {
     if (p.bystander == 1) { reg.installPlugin(&bystander); bystander.disable(); }
     if (p.bystander == 2) reg.installPlugin(&bystander);
     for (size_t i = p.tests.size(); i-- > 0;) reg.addTest(G.shells[i]);     // addTest prepends
+    if (p.crash) UtestShell::setCrashMethod(crash_hook_that_returns);        // never the default (abort) while a crashing terminator may be installed
+    if (p.crash == 1) UtestShell::setCrashOnFail();                          // (2: the runner does it when it sees -f)
     if (p.mode == 0) {
         TestFilter gfilt(p.gfs.c_str()), nfilt(p.nfs.c_str());
         if (p.gf == F_STRICT || p.gf == F_XSTRICT) gfilt.strictMatching();
@@ -506,6 +527,7 @@ static void run_inner() {
         o->have_rc = 1;
         PlatformSpecificFPuts = old_fputs; PlatformSpecificFlush = old_flush;
     }
+    if (p.crash) { UtestShell::restoreDefaultTestTerminator(); UtestShell::resetCrashMethod(); }   // the outer test (nested runs) continues in the default configuration
     o->depth_after_run = CppUTestVerif_JumpBufferDepth();
     o->cur_after_ok = UtestShell::getCurrent() == G.base_cur;
     o->res_after_ok = g_peek->peekResult() == G.base_res;
@@ -541,6 +563,7 @@ static void run_program_here(const Program& p) {   // fills g_obs
     TestOutput::setWorkingEnvironment(TestOutput::detectEnvironment);
     UtestShell::setRethrowExceptions(false);
     UtestShell::restoreDefaultTestTerminator();
+    UtestShell::resetCrashMethod();
     g_obs->finished = 1;
 }
 
@@ -660,7 +683,8 @@ static void judge(vf::Ctx& c, const Program& p, const Model& m, const Obs& o) {
             else if (exp.kind == EV_ENTER && exp.ph == 2 && !(got.kind == EV_ENTER && got.ph == 1))
                 key = std::string("trace:teardown-skipped:after-") + (pr && pr->s->terminating_kind() ? std::string(KNAME[pr->s->kind]) + "-in-" + PHNAME[pr->ph] : std::string("normal-phase-end"));
             else key = "trace:mismatch:expected=" + ev_kind(exp) + ":observed=" + ev_kind(got);
-            c.violation(key, "event " + std::to_string(i) + ": expected " + ev_str(p, by_id, exp) + ", observed " + ev_str(p, by_id, got) + (prev ? "; previous event " + ev_str(p, by_id, *prev) : ""));
+            if (p.crash) key += ":crash-on-fail";     // the configuration is part of the failing class (terminator in use: the crashing one, crash method returns)
+            c.violation(key, std::string(p.crash ? (p.crash == 1 ? "[crash-on-fail set with setCrashOnFail(), crash method returns] " : "[crash-on-fail set with -f, crash method returns] ") : "") + "event " + std::to_string(i) + ": expected " + ev_str(p, by_id, exp) + ", observed " + ev_str(p, by_id, got) + (prev ? "; previous event " + ev_str(p, by_id, *prev) : ""));
         }
         c.count("trace_events_compared", i);
     }
@@ -785,6 +809,22 @@ static void judge(vf::Ctx& c, const Program& p, const Model& m, const Obs& o) {
         c.count("nested_programs");
     }
 
+    // ---- crash-on-fail configuration: what the returning crash hook saw (evidence; the property does not state when the hook is called)
+    if (p.crash) {
+        long uses = m.terminator_uses[0] + m.terminator_uses[1] + m.terminator_uses[2];
+        c.count(p.crash == 1 ? "programs_crash_on_fail_set_by_api" : "programs_crash_on_fail_set_by_flag_f");
+        c.count(std::string("programs_crash_on_fail_") + mode_name(p.mode));
+        if (p.nested) c.count("programs_crash_on_fail_nested");
+        c.count("crash_on_fail_terminator_uses_expected", (uint64_t) uses);
+        for (int ph = 0; ph < 3; ph++) if (m.terminator_uses[ph]) c.count(std::string("crash_on_fail_checks_leaving_") + PHNAME[ph], (uint64_t) m.terminator_uses[ph]);
+        c.count("crash_hook_calls", o.crash_calls);
+        for (int ph = 0; ph < 3; ph++) if (o.crash_calls_in_phase[ph]) c.count(std::string("crash_hook_calls_in_") + PHNAME[ph], o.crash_calls_in_phase[ph]);
+        if (o.crash_calls_outside_phase) c.count("crash_hook_calls_outside_any_phase", o.crash_calls_outside_phase);
+        if (uses > 0) c.count("programs_crash_on_fail_with_a_failing_check");
+        if (m.terminator_uses[0] > 0) c.count("programs_crash_on_fail_with_a_failing_check_in_setup");
+        if (o.crash_calls > 0 && (long) o.crash_calls == uses) c.count("programs_crash_hook_called_once_per_leaving_check");
+    } else if (o.crash_calls) c.count("crash_hook_calls_without_crash_on_fail", o.crash_calls);
+
     // ---- evidence
     c.count(std::string("programs_") + mode_name(p.mode));
     c.count("programs_shape_" + p.shape);
@@ -884,9 +924,12 @@ static int random_terminating_kind(vf::Rng& r, bool with_exit) {
 #endif
 }
 
-static void finish_program(vf::Rng& r, Program& p, GenState& g) {
+static void finish_program(vf::Rng& r, Program& p, GenState& g, int forced_crash = -1) {
     p.nstmts = g.next_id;
     p.bystander = r.chance(40) ? 1 + (int) r.below(3) : 0;
+    // terminator configuration: default, or crash-on-fail with a crash method that returns (by API call, or by -f where there is a command line)
+    { bool on = r.chance(25), by_flag = r.chance(70); p.crash = !on ? 0 : (p.mode != 0 && by_flag) ? 2 : 1; }
+    if (forced_crash >= 0) p.crash = forced_crash == 0 ? 0 : p.mode == 0 ? 1 : forced_crash;
     bool has_throw = false;
     for (const TestSpec& t : p.tests) for (int ph = 0; ph < 3; ph++) for (const Stmt& s : t.ph[ph]) if ((s.kind == K_THROWSTD || s.kind == K_THROWINT) && s.mask) has_throw = true;
     p.flag_e = has_throw || r.chance(40);
@@ -901,6 +944,7 @@ static void finish_program(vf::Rng& r, Program& p, GenState& g) {
     if (p.reverse) opts.push_back({ "-b" });
     if (p.run_ignored) opts.push_back({ "-ri" });
     if (r.chance(10)) opts.push_back({ r.chance(50) ? "-onormal" : "-oeclipse" });
+    if (p.crash == 2) opts.push_back({ "-f" });
     static const char* GO[] = { "", "-g", "-sg", "-xg", "-xsg" }; static const char* NO[] = { "", "-n", "-sn", "-xn", "-xsn" };
     if (p.gf != F_NONE) { if (r.chance(50)) opts.push_back({ std::string(GO[p.gf]) + p.gfs }); else opts.push_back({ GO[p.gf], p.gfs }); }
     if (p.nf != F_NONE) { if (r.chance(50)) opts.push_back({ std::string(NO[p.nf]) + p.nfs }); else opts.push_back({ NO[p.nf], p.nfs }); }
@@ -1000,7 +1044,7 @@ static std::string describe(const Program& p) {
     }
     if (lim < p.tests.size()) ts.push_back(vf::jstr("... " + std::to_string(p.tests.size() - lim) + " more tests"));
     std::vector<std::string> av; for (const std::string& a : p.argv) av.push_back(vf::jstr(a));
-    return vf::J().k("mode", mode_name(p.mode)).k("build", VF_VARIANT).k("shape", p.shape).k("bystander_plugin", p.bystander).k("tests", (unsigned long) p.tests.size()).k("repetitions", p.reps)
+    return vf::J().k("mode", mode_name(p.mode)).k("build", VF_VARIANT).k("shape", p.shape).k("bystander_plugin", p.bystander).k("crash_on_fail", p.crash == 0 ? "off" : p.crash == 1 ? "setCrashOnFail(), crash method returns" : "-f, crash method returns").k("tests", (unsigned long) p.tests.size()).k("repetitions", p.reps)
         .k("group_filter", std::string(FNAME[p.gf]) + ":" + p.gfs).k("name_filter", std::string(FNAME[p.nf]) + ":" + p.nfs)
         .k("verbose", p.verbose).k("color", p.color).k("reverse", p.reverse).k("run_ignored", p.run_ignored).k("visual_studio_format", p.vsformat).k("nested_in_outer_test", p.nested)
         .k("string_buffer_output", p.string_buffer_output).raw("argv", vf::jarr(av)).raw("program", vf::jarr(ts)).str();
@@ -1044,7 +1088,8 @@ static void sec_runner(vf::Ctx& c) { run_and_judge(c, std::make_shared<Program>(
 static void sec_process(vf::Ctx& c) { run_and_judge(c, std::make_shared<Program>(gen_program(c.rng, 2, c.thorough))); }
 
 // complete enumeration: every (setup, body, teardown) outcome triple, 13 identical tests back to back (more than the
-// 10 jump-buffer slots), two repetitions, through the registry and through the runner
+// 10 jump-buffer slots), two repetitions, through the registry and through the runner, with the default terminators and
+// in the crash-on-fail configuration (crash method returns)
 #ifdef VF_NOEXC
 static const int TRI_K[] = { -1, K_FAILCPP, K_FAILC, K_EXIT };
 #else
@@ -1054,9 +1099,10 @@ static const int TRI_N = (int) (sizeof TRI_K / sizeof TRI_K[0]);
 static void sec_triples(vf::Ctx& c) {
     uint64_t i = c.idx;
     int ks[3]; ks[0] = TRI_K[i % TRI_N]; i /= TRI_N; ks[1] = TRI_K[i % TRI_N]; i /= TRI_N; ks[2] = TRI_K[i % TRI_N]; i /= TRI_N;
-    int mode = (int) (i % 2);
+    int mode = (int) (i % 2); i /= 2;
+    int crash = (int) (i % 3);       // 0 default terminators, 1 setCrashOnFail(), 2 -f (registry mode: 1 and 2 are both the API call, there is no command line)
     auto pp = std::make_shared<Program>();
-    Program& p = *pp; p.mode = mode; p.reps = 2; p.shape = "outcome_triple";
+    Program& p = *pp; p.mode = mode; p.reps = 2; p.shape = crash ? "outcome_triple_crash_on_fail" : "outcome_triple";
     GenState g; g.reps = 2;
     for (int t = 0; t < 13; t++) {
         TestSpec ts; ts.group = "Tri"; ts.name = "t" + std::to_string(t); ts.file = "tests_a.cpp"; ts.line = 1000 + 100 * t;
@@ -1072,7 +1118,7 @@ static void sec_triples(vf::Ctx& c) {
         }
         p.tests.push_back(ts);
     }
-    finish_program(c.rng, p, g);
+    finish_program(c.rng, p, g, crash);
     run_and_judge(c, pp);
 }
 
@@ -1108,7 +1154,7 @@ int main(int argc, char** argv) {
     if (g_obs == MAP_FAILED) { perror("mmap"); return 2; }
     static TestSpec peek_spec; peek_spec.group = "Peek"; peek_spec.name = "peek"; peek_spec.file = "peek.cpp"; peek_spec.line = 1;
     g_peek = new ScriptShell(-1, peek_spec);
-    uint64_t ntri = (uint64_t) TRI_N * TRI_N * TRI_N * 2;
+    uint64_t ntri = (uint64_t) TRI_N * TRI_N * TRI_N * 2 * 3;
     std::vector<vf::Section> S = {
         { "outcome_triples", ntri, ntri, sec_triples, true },
         { "failure_totals_around_256", (uint64_t) TOT_N * 4, (uint64_t) TOT_N * 4, sec_totals, true },
